@@ -74,8 +74,12 @@ def run(ck):
     if "err" in box:
         raise box["err"]
     paths.append(box["path"])
+    for lang, inp in protolib.hangs(ck):
+        ck.violation("proto/%s/call-does-not-return" % lang, "%s on input %s: a call did not return within 30 s" % (lang, json.dumps(protolib.as_text(inp))),
+                     {"suite": "lexers", "lang": lang, "input": inp, "how": "run the input through the entry point: the call hangs"})
     for p in paths:
-        judge(ck, ck.validate("proto", "ProtoTrace", "ProtoTrace.cfg", p, timeout=3000), os.path.basename(p))
+        if os.path.exists(p):
+            judge(ck, ck.validate("proto", "ProtoTrace", "ProtoTrace.cfg", p, timeout=3000), os.path.basename(p))
     ck.assumptions += ["'end-of-input report' = an error report that the next call repeats identically; linear bound 4*len+16 calls",
                        "a hang is observed as exceeding that call bound (each call of these lexers terminates or the harness times out: exit 2)"]
 
